@@ -3,8 +3,8 @@ package main
 // C01 (provenance), C02 (trusted certificates / fatal errors), C04 (trust flags), C10 (logout messages).
 
 import (
-	"go/token"
 	"fmt"
+	"go/token"
 	"go/types"
 	"reflect"
 	"strings"
@@ -228,6 +228,10 @@ func flagRule(c *Ctx, rule string, res *Result, spec inboundSpec) {
 		b, isConst := false, false
 		if ok {
 			b, isConst = constBool(fv)
+			// a stored condition the path has decided (`flag := !sp.SkipSignatureValidation` kept on the validating arm)
+			if _, isU := fv.(*UnknownV); !isConst && !isU && isBoolType(fv.Type()) {
+				b, isConst = t.factTrue(fv)
+			}
 		}
 		if !ok || !isConst {
 			o := c.undecided(rule, fname, "flag of returned "+spec.Kind+" ["+label+"]", pos, "SignatureValidated of the returned object is not a known constant on this path: "+ap(fv))
